@@ -793,8 +793,10 @@ pub(crate) fn run(replay: Option<&str>) -> Report {
     rep.notes.push("assume: an export-policy change is followed by soft_reset_out or ROUTE-REFRESH before the views are compared (the operator procedure); TCP partial writes inside one flush are not varied".into());
     for m in models(thorough) {
         // the multi-source pack has ~20 ops: one level less in the quick tier
-        let d = if !thorough && m.ops.len() > 16 { depth - 1 } else { depth };
-        let cfg = BfsCfg { max_depth: d, max_secs: if thorough { 2400 } else { 40 }, ..Default::default() };
+        // (thorough: 7 / 5 - the state now contains the queued change events, which costs a
+        // factor of ~15 in states against the earlier, unsound, fingerprint)
+        let d = if m.ops.len() > 16 { if thorough { depth - 2 } else { depth - 1 } } else { depth };
+        let cfg = BfsCfg { max_depth: d, max_secs: if thorough { 1500 } else { 40 }, ..Default::default() };
         bfs::bfs(&m, &cfg, &mut rep);
         if let Some(e) = take_machinery() {
             rep.machinery_error = Some(e);
